@@ -46,9 +46,22 @@ theorem cutIns_spN (j : Nat) : spN (cutIns nn dead).net j = spN nn.net j := by
 end cut
 
 /-! ### the semantic vocabulary -/
+/-- the labelling satisfies the equation of every line that is not driven by a node in `S` (the "holes": nodes whose
+    meaning is given from outside) -/
+def ConsOff {α} (nn : NNet) (S : Nat → Prop) (z : α) (neg : α → α) (prim : String → α → α → α → α → α) (an : Nat → α)
+    (v : Nat → α) : Prop :=
+  ∀ l, l < nn.net.lines.size → ¬ S (nn.net.line l).driver → v l = lineEq nn.net (spN nn.net) z neg prim an v l
+
 /-- the host labelling satisfies the equation of every line that is not driven by the cell `c` -/
 def ConsHole {α} (h : NNet) (c : Nat) (z : α) (neg : α → α) (prim : String → α → α → α → α → α) (an : Nat → α) (v : Nat → α) : Prop :=
   ∀ l, l < h.net.lines.size → (h.net.line l).driver ≠ c → v l = lineEq h.net (spN h.net) z neg prim an v l
+
+theorem consOff_false {α} (nn : NNet) (z : α) (neg : α → α) (prim : String → α → α → α → α → α) (an v : Nat → α) :
+    ConsOff nn (fun _ => False) z neg prim an v ↔ ConsN nn z neg prim an v :=
+  ⟨fun h l hl => h l hl (fun x => x), fun h l hl _ => h l hl⟩
+
+theorem consOff_single {α} (nn : NNet) (c : Nat) (z : α) (neg : α → α) (prim : String → α → α → α → α → α) (an v : Nat → α) :
+    ConsOff nn (fun d => d = c) z neg prim an v ↔ ConsHole nn c z neg prim an v := Iff.rfl
 
 /-- `(anm, vm)` is a consistent labelling of the implementation (with the lines of unconnected instance inputs absent)
     whose ports carry the values of the instance's lines in the host labelling `v`: the **relational meaning of the cell** -/
